@@ -2,7 +2,17 @@ import Ptk.Proto
 import Ptk.Gen.C18
 import Ptk.Model.C18
 import Ptk.Model.C18Html
+import Ptk.Model.C18Sess
+import Ptk.Model.C18Expl
 open Ptk Ptk.Py Ptk.Proto Ptk.C18
+
+/-- the int-string-conversion limit that applies to control-sequence parameters in the current tree
+    (mirrors `limitFor` of Props/C18Int.lean, which is not linked into the driver) -/
+def ansiLimit : Option Nat :=
+  if Gen.C18.ansiParamExpr = "min(int(current or 0), 9999)" then Gen.C18.intMaxStrDigits else none
+
+/-- `str.isprintable` of the interpreter the harness runs in (generated table) -/
+def pr : Char → Bool := Gen.C18.isPrintable
 
 def tb : Tables := { fg := Gen.C18.fgColors, bg := Gen.C18.bgColors, c256 := Gen.C18.colors256 }
 
@@ -36,6 +46,26 @@ def pList (p : P α) : P (List α) := fun ts => do
   let (n, ts) ← pNat ts
   pTimes p n ts
 
+/-- a Python value: `S <str>` | `P <str> <repr>` (object.__format__) | `N <str> <repr>` (number) -/
+def pVal : P Val
+  | "S" :: r => do
+    let (s, r) ← pStr r
+    pure ({ kind := .str, s := s }, r)
+  | "P" :: r => do
+    let (s, r) ← pStr r
+    let (rp, r) ← pStr r
+    pure ({ kind := .plain, s := s, r := rp }, r)
+  | "N" :: r => do
+    let (s, r) ← pStr r
+    let (rp, r) ← pStr r
+    pure ({ kind := .num, s := s, r := rp }, r)
+  | _ => none
+
+def pKwItem : P (Text × Val) := fun ts => do
+  let (n, ts) ← pStr ts
+  let (v, ts) ← pVal ts
+  pure ((n, v), ts)
+
 def wrapCalls : Nat → AnyFT → AnyFT
   | 0, v => v
   | n + 1, v => .call (wrapCalls n v)
@@ -68,6 +98,8 @@ def encErr : Err → String
   | .index => "err:IndexError"
   | .value => "err:ValueError"
   | .type => "err:TypeError"
+  | .key => "err:KeyError"
+  | .unsupported => "unsupported"
 
 def encRes (f : α → String) : Option (Except Err α) → String
   | none => "unsupported"
@@ -78,34 +110,141 @@ def encHRes : Except HErr Frags → String
   | .ok fs => encFrags fs
   | .error .expat => "err:ExpatError"
   | .error .value => "err:ValueError"
+  | .error .attr => "err:AttributeError"
   | .error .unsupported => "unsupported"
 
 def encHFmt : Except HErr (Option (Except Err (Except HErr Frags))) → String
   | .error e => encHRes (.error e)
   | .ok r => encRes encHRes r
 
+def pOptInt : P (Option Int)
+  | t :: r => (decOptInt t).map (·, r)
+  | [] => none
+
+def pInt : P Int
+  | t :: r => (decInt t).map (·, r)
+  | [] => none
+
+def pElArg : P ElArg
+  | "S" :: r => some (.self, r)
+  | "P" :: r => do
+    let (fs, r) ← pList pFrag r
+    pure (.plain fs, r)
+  | _ => none
+
+def pElOp : P ElOp
+  | "A" :: r => do let (f, r) ← pFrag r; pure (.append f, r)
+  | "E" :: r => do let (x, r) ← pElArg r; pure (.extend x, r)
+  | "I" :: r => do
+    let (i, r) ← pInt r
+    let (f, r) ← pFrag r
+    pure (.insert i f, r)
+  | "S" :: r => do
+    let (i, r) ← pInt r
+    let (f, r) ← pFrag r
+    pure (.setItem i f, r)
+  | "SL" :: r => do
+    let (i, r) ← pInt r
+    let (x, r) ← pElArg r
+    pure (.setItemList i x, r)
+  | "SS" :: r => do
+    let (a, r) ← pOptInt r
+    let (b, r) ← pOptInt r
+    let (x, r) ← pElArg r
+    pure (.setSlice a b x, r)
+  | "ST" :: r => do
+    let (a, r) ← pOptInt r
+    let (b, r) ← pOptInt r
+    let (f, r) ← pFrag r
+    pure (.setSliceItem a b f, r)
+  | "IA" :: r => do let (fs, r) ← pList pFrag r; pure (.iadd fs, r)
+  | "X" :: r => some (.explodeSelf, r)
+  | _ => none
+
+/-- `<depth> other <str>` | `<depth> ft <AnyFT payload>` -/
+def wrapCallsV : Nat → AnyV → AnyV
+  | 0, v => v
+  | n + 1, v => .call (wrapCallsV n v)
+
+def pAnyV : P AnyV := fun ts => do
+  match ts with
+  | d :: "other" :: r => do
+    let (s, r) ← pStr r
+    pure (wrapCallsV (← decNat d) (.other s), r)
+  | _ => do
+    let (v, r) ← pAny ts
+    pure (.ft v, r)
+
+def pTok : P (List Text × Text) := fun ts => do
+  let (names, ts) ← pList pStr ts
+  let (tx, ts) ← pStr ts
+  pure ((names, tx), ts)
+
+def encSRes : SRes → String
+  | .ok => "ok"
+  | .frags fs => encFrags fs
+  | .herr e => encHRes (.error e)
+  | .err e => encErr e
+  | .unsupported => "unsupported"
+  | .noObj => "err:NoObject"
+
+def pKind : String → Option Kind
+  | "html" => some .html
+  | "ansi" => some .ansi
+  | _ => none
+
+/-- the session ops (`reset` starts a new process image) -/
+def handleSess (s : Sess) (toks : List String) : Option (Sess × String) :=
+  match toks with
+  | ["reset"] => some ({}, "ok")
+  | ["snew", id, k, v] => do
+    let (s', r) := sessStep tb pr s (.new (← decNat id) (← pKind k) (← decStr v))
+    pure (s', encSRes r)
+  | "sfmt" :: id :: rest => do
+    let (args, r) ← pList pVal rest
+    let (kw, r) ← pList pKwItem r
+    if r ≠ [] then none else
+    let (s', res) := sessStep tb pr s (.fmt (← decNat id) args kw)
+    pure (s', encSRes res)
+  | "smod" :: id :: rest => do
+    let (args, r) ← pList pVal rest
+    if r ≠ [] then none else
+    let (s', res) := sessStep tb pr s (.mod (← decNat id) args)
+    pure (s', encSRes res)
+  | ["sget", id] => do
+    let (s', res) := sessStep tb pr s (.get (← decNat id))
+    pure (s', encSRes res)
+  | _ => none
+
 def handle (toks : List String) : String :=
   let r : Option String :=
     match toks with
-    | ["ansi", s] => do pure (encFrags (ansi tb (← decStr s)))
+    | ["ansi", s] => do
+      pure (match ansiE ansiLimit tb (← decStr s) with
+        | .ok fs => encFrags fs
+        | .error .value => "err:ValueError")
     | ["aesc", s] => do pure (encStr (ansiEscape (← decStr s)))
     | ["hesc", s] => do pure (encStr (htmlEscape (← decStr s)))
     | "afmt" :: t :: rest => do
       let tm ← decStr t
-      let (vs, r) ← pList pStr rest
-      if r ≠ [] then none else pure (encRes encFrags (ansiFormat tb tm vs))
+      let (vs, r) ← pList pVal rest
+      let (kw, r) ← pList pKwItem r
+      if r ≠ [] then none else pure (encRes encFrags (ansiFormat tb pr tm vs kw))
     | "amod" :: t :: rest => do
       let tm ← decStr t
-      let (vs, r) ← pList pStr rest
+      let (vs, r) ← pList pVal rest
       if r ≠ [] then none else pure (encRes encFrags (ansiMod tb tm vs))
+    | ["repr", s] => do pure (encStr (pyRepr pr (← decStr s)))
+    | ["ascii", s] => do pure (encStr (asciiEscape (pyRepr pr (← decStr s))))
     | ["html", s] => do pure (encHRes (html (← decStr s)))
     | "hfmt" :: t :: rest => do
       let tm ← decStr t
-      let (vs, r) ← pList pStr rest
-      if r ≠ [] then none else pure (encHFmt (htmlFormat tm vs))
+      let (vs, r) ← pList pVal rest
+      let (kw, r) ← pList pKwItem r
+      if r ≠ [] then none else pure (encHFmt (htmlFormat pr tm vs kw))
     | "hmod" :: t :: rest => do
       let tm ← decStr t
-      let (vs, r) ← pList pStr rest
+      let (vs, r) ← pList pVal rest
       if r ≠ [] then none else pure (encHFmt (htmlMod tm vs))
     | "split" :: rest => do
       let (fs, r) ← pList pFrag rest
@@ -136,10 +275,31 @@ def handle (toks : List String) : String :=
         pure (match templateFormat tm vs with
           | none => "err:AssertionError"
           | some fs => encFrags fs)
+    | "el" :: rest => do
+      let (fs, r) ← pList pFrag rest
+      let (ops, r) ← pList pElOp r
+      if r ≠ [] then none else
+        let res := elSession fs ops
+        pure (encFrags res.1 ++ " " ++ encList encBool res.2)
+    | "tfta" :: st :: ac :: rest => do
+      let style ← decStr st
+      let (v, r) ← pAnyV rest
+      if r ≠ [] then none else
+        pure (match toFormattedTextAC v style (← decBool ac) with
+          | none => "err:ValueError"
+          | some fs => encFrags fs)
+    | "pyg" :: rest => do
+      let (toks, r) ← pList pTok rest
+      if r ≠ [] then none else pure (encFrags (pygmentsTokens toks))
     | "merge" :: rest => do
       let (vs, r) ← pList pAny rest
       if r ≠ [] then none else pure (encFrags (mergeFormattedText vs))
     | _ => none
   r.getD "bad-op"
 
-def main : IO Unit := Ptk.Proto.run handle
+def stepS (s : Sess) (toks : List String) : Sess × String :=
+  match handleSess s toks with
+  | some r => r
+  | none => (s, handle toks)
+
+def main : IO Unit := Ptk.Proto.runS stepS ({} : Sess)
